@@ -12,13 +12,14 @@ TECHNIQUE = ('runtime monitoring: every rule of every generated grammar file sta
              'with a reference resolver (current file, then imports in order); class identity / qualified-name census')
 RULE = ('random trees of 2-7 grammar files in up to 3 directory levels (root, pkg, pkg/sub, pkg/sub/deep) with random import '
         'graphs (imports relative to the importing file\'s package; diamonds, repeated imports, cycles in 30%), overlapping '
-        'rule names A-D defined in several files, rules that reference other names (resolved from their own file). Checked: '
+        'rule names A-D defined in several files, rules that reference other names (resolved from their own file), alias rules (X: Y;) incl. aliases whose target is not visible from the root file. Checked: '
         'the model text built from the reference resolution is accepted and every object\'s class has the expected '
         'file-based qualified name; mm[name] (unqualified, from the root file) and mm[qualified] return the expected classes; '
         'one class per (file, rule) however often the file is imported. distinct = (directory layout, import graph, rule '
         'distribution); non-trivial = a name is defined in >= 2 visible files, or the graph has a diamond or cycle')
 REQUIRED = {'grammar_trees': 200, 'objects_checked': 800, 'names_with_competing_definitions': 200, 'qualified_lookups': 1000,
-            'deep_imports': 50, 'diamonds': 20, 'cyclic_trees': 20}
+            'deep_imports': 50, 'diamonds': 20, 'cyclic_trees': 20,
+            'alias_rules': 100, 'alias_to_rule_not_visible_from_root': 10}
 
 DIRS = ['', 'pkg', 'pkg/sub', 'pkg/sub/deep']
 NAMES = ['A', 'B', 'C', 'D']
@@ -89,6 +90,10 @@ def grammar_text(files, info, f, top_names):
         out.append('Model: things+=Thing;')
         out.append('Thing: %s;' % ' | '.join(top_names))
     for name, sub in info[f]['defs'].items():
+        if sub and sub.startswith('='):
+            # alias rule: the body is nothing but a reference to another rule (resolved from this file)
+            out.append('%s: %s;' % (name, sub[1:]))
+            continue
         body = "'%s' x=INT" % tag(f, name)
         if sub:
             body += " ('with' sub=%s)?" % sub
@@ -113,7 +118,7 @@ def emulate_cycle_defect(info):
     res = {}
     unresolved = []
     for f in finished:
-        names = set(x for x in info[f]['defs'].values() if x)
+        names = set(x.lstrip('=') for x in info[f]['defs'].values() if x)
         if f == 'main.tx':
             names |= set(NAMES)
         for name in names:
@@ -139,6 +144,16 @@ def one(ctx, i, rep=None):
             cands = [n for n in NAMES if n != name and resolve(info, f, n)]
             if cands and r.random() < 0.5:
                 info[f]['defs'][name] = r.choice(cands)
+    # alias rules (X: Y;) whose target is an ordinary rule visible from the alias' own file
+    n_alias = 0
+    for f in files:
+        for name in list(info[f]['defs']):
+            if r.random() < 0.15:
+                cands = [n for n in NAMES if n != name and resolve(info, f, n) and
+                         not (info[resolve(info, f, n)]['defs'][n] or '').startswith('=')]
+                if cands:
+                    info[f]['defs'][name] = '=' + r.choice(cands)
+                    n_alias += 1
     top = [n for n in NAMES if resolve(info, 'main.tx', n)]
     if not top:
         info['main.tx']['defs']['A'] = None
@@ -168,6 +183,11 @@ def one(ctx, i, rep=None):
                   tuple(tuple(sorted(info[f]['defs'].items(), key=str)) for f in files)), competing > 0 or diamond or cyc,
                  wit if ctx.evaluations < 2 else None)
         ctx.count('grammar_trees')
+        ctx.count('alias_rules', n_alias)
+        if any((info[f]['defs'][n] or '').startswith('=') and resolve(info, f, info[f]['defs'][n][1:]) not in (f, None)
+               and resolve(info, f, info[f]['defs'][n][1:]) not in ['main.tx'] + info['main.tx']['imports']
+               for f in reach if f != 'main.tx' for n in info[f]['defs']):
+            ctx.count('alias_to_rule_not_visible_from_root')
         ctx.count('names_with_competing_definitions', competing)
         if diamond:
             ctx.count('diamonds')
@@ -181,14 +201,16 @@ def one(ctx, i, rep=None):
             ctx.violation(classify_load_error(info, top, cyc, str(e)), 'every referenced rule is defined in the file itself or in one of its imports, '
                           'yet the metamodel fails: %s' % str(e)[:160], wit, rep)
             return
-        except (OSError, AssertionError) as e:
+        except Exception as e:
             ctx.violation(None, 'grammar tree failed to load: %r' % e, wit, rep)
             return
         # ---- model text from the reference resolution ----
         def text_for(f, name, depth):
             df = resolve(info, f, name)
-            t = '%s %d' % (tag(df, name), depth)
             sub = info[df]['defs'][name]
+            if sub and sub.startswith('='):
+                return text_for(df, sub[1:], depth)
+            t = '%s %d' % (tag(df, name), depth)
             exp = [(ns_of(df) + '.' + name)]
             if sub and depth < 3:
                 st, se = text_for(df, sub, depth + 1)
